@@ -157,7 +157,7 @@ Qed.
 
 Theorem table_complete : covers notify_of.
 Proof.
-  intros s sl. destruct s as [k|k|k|k|k|k|k r e|k|w|b|b|]; cbn [interested notify_of];
+  intros s sl. destruct s as [k|k|k|k|k|k|k r e|k|w|w|b|b|]; cbn [interested notify_of];
     try (destruct r); try (destruct e); try (destruct b); cbn [In]; intuition.
 Qed.
 
